@@ -700,9 +700,11 @@ impl<'a> UdpNhcRepr {
             return Err(Error);
         }
 
-        if checksum_caps.udp.rx() {
+        if checksum_caps.udp.rx()
+            && let Some(checksum) = packet.checksum()
+        {
             let payload_len = packet.payload().len();
-            let chk_sum = !checksum::combine(&[
+            let sum = checksum::combine(&[
                 checksum::pseudo_header_v6(
                     src_addr,
                     dst_addr,
@@ -713,11 +715,11 @@ impl<'a> UdpNhcRepr {
                 packet.dst_port(),
                 payload_len as u16 + 8,
                 checksum::data(packet.payload()),
+                checksum,
             ]);
 
-            if let Some(checksum) = packet.checksum()
-                && chk_sum != checksum
-            {
+            // Over IPv6 a zero checksum is never valid: a computed zero is transmitted as all-ones.
+            if checksum == 0 || sum != !0 {
                 return Err(Error);
             }
         }
@@ -770,7 +772,9 @@ impl<'a> UdpNhcRepr {
                 checksum::data(packet.payload_mut()),
             ]);
 
-            packet.set_checksum(chk_sum);
+            // As for any UDP datagram, a computed checksum of zero is transmitted as all-ones:
+            // zero means "no checksum", which IPv6 does not allow.
+            packet.set_checksum(if chk_sum == 0 { 0xffff } else { chk_sum });
         }
     }
 }
